@@ -244,7 +244,8 @@ func H20_two_requests() {
 		vrtQuiesce()
 	}
 	vrtAssert("C20.subscribes_completed", completions == 2)
-	topicsIn := [][]byte{[]byte("a/b"), []byte("a/c"), []byte("b")}
+	// (a topic in the $ space matches no filter that does not start with $ - and must not inherit the previous answer)
+	topicsIn := [][]byte{[]byte("a/b"), []byte("$SYS/x"), []byte("a/c"), []byte("$a/b"), []byte("b")}
 	q := vrtByte("qos")
 	vrtAssume(q <= 1)
 	for _, T := range topicsIn {
@@ -258,7 +259,7 @@ func H20_two_requests() {
 		c.peerTake()
 		for i := 0; i < 2; i++ {
 			want := 0
-			if specMatch(filters[i], T) {
+			if T[0] != '$' && specMatch(filters[i], T) {
 				want = 1
 			}
 			vrtAssert("C20.callback_once_per_matching_message", calls[i]-before[i] == want)
